@@ -20,6 +20,8 @@ import (
 type DirectUDPClient struct {
 	info    zerocopy.UDPClientSessionInfo
 	session zerocopy.UDPClientSession
+	network string
+	mtu     int
 }
 
 // NewDirectUDPClient creates a new UDP client that makes no changes to the packets.
@@ -36,6 +38,8 @@ func NewDirectUDPClient(name, network string, mtu int, listenConfig conn.ListenC
 			Unpacker:      DirectPacketClientUnpacker{},
 			Close:         zerocopy.NoopClose,
 		},
+		network: network,
+		mtu:     mtu,
 	}
 }
 
@@ -48,7 +52,11 @@ func (c *DirectUDPClient) Info() zerocopy.UDPClientInfo {
 
 // NewSession implements [zerocopy.UDPClient.NewSession].
 func (c *DirectUDPClient) NewSession(ctx context.Context) (zerocopy.UDPClientSessionInfo, zerocopy.UDPClientSession, error) {
-	return c.info, c.session, nil
+	// The packer caches the last resolved domain target, so it must not be shared between
+	// sessions: sessions run concurrently and would send datagrams to each other's destinations.
+	session := c.session
+	session.Packer = NewDirectPacketClientPacker(c.network, c.mtu)
+	return c.info, session, nil
 }
 
 // ShadowsocksNoneUDPClient is a Shadowsocks none UDP client.
